@@ -64,6 +64,11 @@ def run(tier):
                                                    dict(w_life, replyget=14, wsdeliver=12))))
         plans.append(dict(what='silence from every point (server stops answering)', impl=impl, cfg={},
                           scripts=silence_scripts()))
+    w_pre = dict(w_life, send=4, replyget=8, replypost=4)
+    plans.append(dict(what='threaded client under pre-emptive schedules (task switches inside blocks, '
+                           'random choice of the next task): lifecycles with faults, sends and '
+                           'disconnect() racing the loops', impl='sync', cfg={}, preempt=seed,
+                      scripts=K.random_scripts(seed + 9, 300 if th else 60, 24, None, w_pre)))
     K.conform(ck, plans)
     ck.cov['rule'] = ('case = one scripted-server script (replies, failures, frames, clock) with '
                       'application calls, on one client implementation; distinct by recorded action '
